@@ -43,6 +43,11 @@ func c10Run(w *W) {
 	eClean, fClean := newFlavErr("cleanup-error")
 	var errRun, errShut, errClean error = eRun, eShut, eClean
 	w.Out.Config += fmt.Sprintf(" errs=%s/%s/%s", fRun, fShut, fClean)
+	timedWaiter := -1
+	if simrt.Choose(3) == 0 {
+		timedWaiter = simrt.Choose(40)
+		w.Out.Config += fmt.Sprintf(" timed-waiter(Worker(), own context ends +%d)", timedWaiter)
+	}
 	pctx, pcancel := context.WithCancel(w.Ctx)
 	defer pcancel()
 
@@ -134,6 +139,26 @@ func c10Run(w *W) {
 			sr.err = s.Start(pctx)
 			sr.ret = h.Tick()
 			sr.done = true
+			if sr.err == nil && timedWaiter >= 0 {
+				// somebody waits with a deadline of his own, through the
+				// service's Worker() (its own Start attempt comes after a
+				// successful one, so it cannot be the one that wins); his
+				// context ends while the phases are still running. What he gets
+				// is his context's error; what everybody else gets from Wait
+				// must not depend on his having looked.
+				k := timedWaiter
+				simrt.Spawn("timed-waiter", func() {
+					cctx, cancel := context.WithCancel(w.Ctx)
+					simrt.Spawn("timed-waiter-context-ends", func() {
+						for j := 0; j < k; j++ {
+							simrt.Yield()
+						}
+						cancel()
+					})
+					_ = s.Worker()(cctx)
+				})
+				w.Fault("timed-waiter-context-ends")
+			}
 			if sr.err == nil {
 				for k := 0; k < nWait; k++ {
 					wr := &waitRec{}
